@@ -199,8 +199,8 @@ func init() {
 			"delivery contract of the server (one total order per datatype, foreign operations in log order) is reproduced by the harness log; that the real server provides it is decided by C05/C06",
 			"replica views are compared in canonical JSON (marshal -> unmarshal -> marshal)",
 		},
-		Cases: func(t string) int { return tierN(t, 1600, 80000) },
-		Floor: func(t string) int { return tierN(t, 400, 20000) },
+		Cases: func(t string) int { return tierN(t, 4000, 80000) },
+		Floor: func(t string) int { return tierN(t, 1000, 20000) },
 		Run:   runC01,
 	})
 }
@@ -223,6 +223,7 @@ func runC01(c *core.Case) *core.Result {
 		g := crdt.NewGen(c.Rng)
 		if sh.typ != "counter" && c.Index%8 >= 4 {
 			g.Exotic = 0.15 // Go-native values: typed numerics, pointers, structs, typed containers
+			g.HostileKeys = 0.15
 		}
 		h := crdt.NewHist(c, g, sh.typ, sh.nrep)
 		AttachIDMonitor(c, h)
